@@ -358,7 +358,7 @@ Proof. exact PoolInv.MergeFrom_J. Qed.
 Print Assumptions C09_inv_MergeFrom.
 
 (* THE INVARIANT HOLDS AFTER EVERY HISTORY of Allocate / Deallocate (of a block that is live in that pool; other Deallocates
-   are outside the pool's contract and ignored) / MergeFrom on both pools, for every blockCount >= 1, cache size and
+   are outside the pool's contract and ignored) / MergeFrom / DeallocateAll on both pools, for every blockCount >= 1, cache size and
    pvUseCache value. *)
 Theorem C09_inv_all_histories : forall C, 1 <= C -> forall CF uc ops,
   PoolInv.J C (PoolInv.grun C CF uc ops) /\ PoolInv.nocache uc (PoolInv.grun C CF uc ops).
@@ -407,3 +407,66 @@ Theorem C09_live_blocks_disjoint_aligned_inside_all_histories : forall C B A CF 
   a mod A = 0 /\ beg (fst bk) <= a /\ a + B <= beg (fst bk) + size /\ (a + B <= a' \/ a' + B <= a).
 Proof. exact PoolAddr.live_blocks_disjoint_all_histories. Qed.
 Print Assumptions C09_live_blocks_disjoint_aligned_inside_all_histories.
+
+(* (3) END TO END, in the property's words.  After EVERY history of Allocate / Deallocate / MergeFrom on two pools: every block
+   that is handed out (live) is aligned to blockAlignment, lies inside the memory block the manager gave for its buffer (which
+   is still owned), overlaps no other live block of either pool and none of the pool's own bookkeeping bytes of any owned
+   buffer, and GetAllocateCount of each pool equals the number of its live blocks. *)
+Theorem C09_end_to_end : forall C B A CF uc beg ops,
+  PoolArith.legal C B A ->
+  let size := Gen_MemPool.pvGetBufferSize C B A in
+  let w := PoolInv.grun C CF uc ops in
+  (forall b, PoolArith.begin_ok A size (beg b)) ->
+  (forall b b', b <> b' -> ~ In b (PoolConc.returned w) -> ~ In b' (PoolConc.returned w) ->
+     beg b + size <= beg b' \/ beg b' + size <= beg b) ->
+  (forall p, PoolConc.acount (PoolConc.getp w p) = PoolConc.lenz (PoolConc.live (PoolConc.getp w p))) /\
+  forall p bk, In bk (PoolConc.live (PoolConc.getp w p)) ->
+    let a := PoolAddr.addr_of C B A beg bk in
+    a mod A = 0 /\ beg (fst bk) <= a /\ a + B <= beg (fst bk) + size /\ ~ In (fst bk) (PoolConc.returned w) /\
+    (forall p' bk', In bk' (PoolConc.live (PoolConc.getp w p')) -> bk' <> bk ->
+       let a' := PoolAddr.addr_of C B A beg bk' in a + B <= a' \/ a' + B <= a) /\
+    (forall b' q len, ~ In b' (PoolConc.returned w) -> In (q, len) (PoolAddr.meta_of C B A beg b') -> q + len <= a \/ a + B <= q).
+Proof. exact PoolAddr.end_to_end. Qed.
+Print Assumptions C09_end_to_end.
+
+(* (4) the signed 8-bit indexes never overflow for blockCount <= 127: every block index firstBlockIndex + j (hence every
+   next-free index stored in a free block and BufferBytes.firstFreeBlockIndex), the ++blockIndex of pvNewBuffer's loop and
+   firstBlockIndex + int8_t(i) of pvDeleteBlocks fit int8_t, never equal the terminator -128, and freeBlockCount <= blockCount
+   fits too. *)
+Theorem C09_index_width : forall C B A begin,
+  PoolArith.legal C B A -> PoolArith.begin_ok A (Gen_MemPool.pvGetBufferSize C B A) begin ->
+  exists fb first buffer,
+    PoolLayout.new_buffer_layout C B A begin = Ok (fb, fb - begin, first, buffer) /\
+    wrapS 8 C = C /\
+    forall j, 0 <= j < C ->
+      -127 <= first + j <= 126 /\ wrapS 8 (first + j) = first + j /\ first + j <> -128 /\
+      wrapS 8 (first + j + 1) = first + j + 1 /\ wrapS 8 (first + wrapS 8 j) = first + j.
+Proof. exact PoolAddr.index_width. Qed.
+Print Assumptions C09_index_width.
+
+(* DeallocateAll (also what the destructor runs for blockCount > 1) keeps the invariant ... *)
+Theorem C09_inv_DeallocateAll : forall C q w, PoolInv.Jq C q None w -> PoolInv.Jq C q None (PoolConc.DeallocateAll w q).
+Proof. exact PoolInv.DeallocateAll_J. Qed.
+Print Assumptions C09_inv_DeallocateAll.
+
+(* ... and returns everything (the property's last sentence): afterwards the pool owns no buffer, nothing is live or cached,
+   its counter is 0, every buffer it owned is in the list of buffers returned to the manager, and the other pool is untouched.
+   (Returned ids are never owned again and never reused: C09_never_returned_while_live_all_histories, C09_inv_all_histories.) *)
+Theorem C09_deallocate_all_returns_everything : forall C q w,
+  PoolInv.Jq C q None w -> PoolConc.lfree (PoolConc.getp w q) <> [] ->
+  let w' := PoolConc.DeallocateAll w q in
+  PoolInv.own (PoolConc.getp w' q) = [] /\ PoolConc.live (PoolConc.getp w' q) = [] /\ PoolConc.cache (PoolConc.getp w' q) = [] /\
+  PoolConc.acount (PoolConc.getp w' q) = 0 /\
+  (forall b, In b (PoolInv.own (PoolConc.getp w q)) -> In b (PoolConc.returned w')) /\
+  PoolConc.getp w' (negb q) = PoolConc.getp w (negb q).
+Proof. exact PoolInv.DeallocateAll_returns_everything. Qed.
+Print Assumptions C09_deallocate_all_returns_everything.
+
+(* after EVERY history (Allocate / Deallocate / MergeFrom / DeallocateAll): the list of buffers given back to the memory manager
+   has no repetition - every buffer is returned at most once (and never while one of its blocks is live:
+   C09_never_returned_while_live_all_histories; after DeallocateAll / the destructor every owned buffer is in that list:
+   C09_deallocate_all_returns_everything).  Together: all memory is returned exactly once. *)
+Theorem C09_every_buffer_returned_at_most_once : forall C, 1 <= C -> forall CF uc ops,
+  NoDup (PoolConc.returned (PoolInv.grun C CF uc ops)).
+Proof. exact PoolInv.returned_once. Qed.
+Print Assumptions C09_every_buffer_returned_at_most_once.
